@@ -1,13 +1,20 @@
+//@ variant: upto64 CLS=SMALL LOOPS= UNW=xcmc_attr_get_all.0:66 CAN=5 EXTRA=-DXVU_CB_NAME_CHECK
+//@ variant: above64 CLS=BIG LOOPS=../harness/utilctl/xcmc.loops UNW= CAN=3 EXTRA=
 //@ tu: common/common_ctl.c libxcmctl/xcmc.c
-//@ loops: ../harness/utilctl/xcmc.loops
-//@ defs: -DUT_STD_ASSERT
+//@ loops: $LOOPS
+//@ pre-unwind: $UNW
+//@ defs: -DUT_STD_ASSERT -DXVU_ATTRS_$CLS $EXTRA
 //@ enforce: xcmc_attr_get_all
 //@ replace: xvu_attr_cb
-//@ flags: --no-array-field-sensitivity --slice-formula
+//@ flags: --no-array-field-sensitivity --slice-formula --object-bits 13
 //@ props: C14
-//@ expect: postcondition>=5 canary=5
+//@ expect: postcondition>=5 canary=$CAN
 //@ timeout: 900
 #include "_unit_xcmc.h"
+/* Two variants = complete case split over the attribute count of the reply (the recv model of env/utilctl_env.h assumes the class):
+ *   upto64   attrs_len <= 64: the callback loop is closed by unwinding (65 iterations; i is a constant in each, so every access to
+ *            attrs[i] has a constant offset), each callback is checked against the contract of xvu_attr_cb (terminated name, bounded value);
+ *   above64  attrs_len  > 64: the reply must be refused before the loop (loop contract of harness/utilctl/xcmc.loops: base case). */
 void harness(void)
 {
     xv_ghost_havoc();
@@ -16,9 +23,13 @@ void harness(void)
     struct xcmc_session *s; void *data;
     unsigned long c0 = xvu_cb.calls;
     int rv = xcmc_attr_get_all(s, xvu_attr_cb, data);
+#ifdef XVU_ATTRS_SMALL
     if (rv == 0 && xvu_cb.calls == c0) XV_CANARY("no attributes");
     if (rv == 0 && xvu_cb.calls == c0 + 64) XV_CANARY("full table");
     if (rv == 0 && xvu_cb.calls == c0 + 3) XV_CANARY("three attributes");
-    if (rv == -1 && xvu_rx.full && xv_errno == EPROTO) XV_CANARY("wrong reply type");
+#else
+    if (rv == -1 && xvu_rx.full && xvu_rx.type == ctl_proto_type_get_all_attr_cfm && xv_errno == EPROTO) XV_CANARY("attribute count beyond the table refused");
+#endif
+    if (rv == -1 && xvu_rx.full && xvu_rx.type != ctl_proto_type_get_all_attr_cfm && xv_errno == EPROTO) XV_CANARY("wrong reply type");
     if (rv == -1 && !xvu_rx.full) XV_CANARY("short reply or failure");
 }
